@@ -63,38 +63,51 @@ theorem fieldsGo_any (row : List Table.Cell) :
     (fieldsGo row).any (fun s => !s.toList.isEmpty) = (row.map Table.csvCell).any (fun f => !f.isEmpty) := by
   simp [fieldsGo, List.any_map, Function.comp_def]
 
-theorem csv_range1_agrees (cr : table.CSVRenderer) (ff : Fmt.FloatFmt) (t : table.Table) : ∀ (rows : List (List Table.Cell)) (wr : Csv.Writer),
-    table.CSVRenderer.Render.range1 ff cr t (rows.map rowGo) wr
+theorem csv_range1_agrees (cr : table.CSVRenderer) (ff : Fmt.FloatFmt) (t : table.Table) : ∀ (rows : List (List Table.Cell))
+    (Rs : List table.Row) (wr : Csv.Writer), RowsRel Rs rows →
+    table.CSVRenderer.Render.range1 ff cr t Rs wr
       = Outcome.ok (Flow.next { wr with pending := wr.pending ++ String.ofList ((recordsOf rows).flatMap Table.csvLine) }) := by
   intro rows
   induction rows with
-  | nil => intro wr; simp [table.CSVRenderer.Render.range1, recordsOf]
+  | nil =>
+    intro Rs wr h
+    cases Rs with
+    | nil => simp [table.CSVRenderer.Render.range1, recordsOf]
+    | cons _ _ => exact absurd h (by simp [RowsRel])
   | cons row rows ih =>
-    intro wr
-    rw [List.map_cons, table.CSVRenderer.Render.range1]
-    have h2 := csv_range2_agrees cr ff wr (rowGo row) row []
-    simp only [rowGo, List.nil_append] at h2
-    simp only [rowGo, zero_list, zero_bool, h2, Outcome.bind, csv_range3_agrees, Bool.false_or, fieldsGo_any]
-    have hrec : recordsOf (row :: rows)
-        = if (row.map Table.csvCell).any (fun f => !f.isEmpty) then row.map Table.csvCell :: recordsOf rows else recordsOf rows := by
-      simp only [recordsOf, List.map_cons, List.filter_cons]
-    rw [hrec]
-    have ih' := fun wr => ih wr
-    by_cases ht : (row.map Table.csvCell).any (fun f => !f.isEmpty) = true
-    · simp only [ht, Bool.not_true, Bool.false_eq_true, if_false, if_true, Csv.Writer.Write, Option.isSome_none, ih']
-      congr 2
-      simp only [Csv.line, fieldsGo_toList, List.flatMap_cons]
-      rw [String.append_assoc, ← ofList_append]
-    · simp only [ht, Bool.not_false, if_true, if_false, ih', Bool.false_eq_true]
+    intro Rs wr h
+    cases Rs with
+    | nil => exact absurd h (by simp [RowsRel])
+    | cons R Rs =>
+      rw [table.CSVRenderer.Render.range1]
+      have hc : R.cells = row.map cellGo := h.1
+      have h2 := csv_range2_agrees cr ff wr R row []
+      simp only [List.nil_append] at h2
+      simp only [hc, zero_list, zero_bool, h2, Outcome.bind, csv_range3_agrees, Bool.false_or, fieldsGo_any]
+      have hrec : recordsOf (row :: rows)
+          = if (row.map Table.csvCell).any (fun f => !f.isEmpty) then row.map Table.csvCell :: recordsOf rows else recordsOf rows := by
+        simp only [recordsOf, List.map_cons, List.filter_cons]
+      rw [hrec]
+      have ih' := fun wr => ih Rs wr h.2
+      by_cases ht : (row.map Table.csvCell).any (fun f => !f.isEmpty) = true
+      · simp only [ht, Bool.not_true, Bool.false_eq_true, if_false, if_true, Csv.Writer.Write, Option.isSome_none, ih']
+        congr 2
+        simp only [Csv.line, fieldsGo_toList, List.flatMap_cons]
+        rw [String.append_assoc, ← ofList_append]
+      · simp only [ht, Bool.not_false, if_true, if_false, ih', Bool.false_eq_true]
 
 /-- **`CSVRenderer.Render` = `Table.renderCSV`**: on a writer that holds `w` the translation returns `w ++ renderCSV t`, no error,
-never a panic -/
-theorem CSV_Render_agrees (cr : table.CSVRenderer) (t : Table.Table) (w : String) (ff : Fmt.FloatFmt) :
-    table.CSVRenderer.Render cr (tableGo t) w ff = Outcome.ok (w ++ String.ofList (Table.renderCSV t), none) := by
+never a panic — for every Go table that stands for the model table -/
+theorem CSV_Render_agrees_rel (cr : table.CSVRenderer) (T : table.Table) (t : Table.Table) (hT : TableRel T t) (w : String)
+    (ff : Fmt.FloatFmt) :
+    table.CSVRenderer.Render cr T w ff = Outcome.ok (w ++ String.ofList (Table.renderCSV t), none) := by
   unfold table.CSVRenderer.Render
-  have hrows : (tableGo t).rows = t.rows.map rowGo := rfl
-  simp only [hrows, csv_range1_agrees, Outcome.bind, Csv.NewWriter, Csv.dropped_Flush]
+  simp only [csv_range1_agrees cr ff T t.rows T.rows _ hT.2, Outcome.bind, Csv.NewWriter, Csv.dropped_Flush]
   rfl
+
+theorem CSV_Render_agrees (cr : table.CSVRenderer) (t : Table.Table) (w : String) (ff : Fmt.FloatFmt) :
+    table.CSVRenderer.Render cr (tableGo t) w ff = Outcome.ok (w ++ String.ofList (Table.renderCSV t), none) :=
+  CSV_Render_agrees_rel cr (tableGo t) t (tableGo_rel t) w ff
 
 /-- non-vacuity: a quoted field, a number, a skipped separator row -/
 example : table.CSVRenderer.Render {} (tableGo ⟨[0, 1], [[.text "a,b".toList .left 0, .num (-5)], [.sep, .sep]]⟩) "" (fun _ _ _ => "")
